@@ -97,6 +97,51 @@ CLAIMED = {
         ref="4/C03"),
 }
 
+_CFG_NOTE = ("Trusted: the harness' own decoder (vf/dalvik_table.py, vf/cfgobs.py abstract_from_units) and bytecode realiser, TLC, the block projection. "
+             "Branches into the middle of an instruction and payload references that are not payloads are out of domain (skipped, counted).")
+_CFG_TECH = "TLA+ spec of block construction (actions) with the property as invariants, model-checked with TLC; enumerated methods realised as bytecode; reported blocks validated by a TLA+ trace spec"
+
+
+def _cfg(pid, what):
+    return dict(
+        spec=["MethodCFG", "MethodCFGMC", "MethodCFG_Trace"],
+        text="MethodCFG.tla states " + what + " as predicates over (method, block list) and gives the block-construction algorithm as actions (leaders, one block per Scan step, "
+             "wire, attach); TLC checks the predicates as invariants of the algorithm's final state on every method of <= 3 abstract instructions (plain, goto, if, packed-switch, "
+             "fill-array-data, return, throw; every target assignment) x every single try range (thorough: 4 instructions, two adjacent ranges), with termination. The enumerated methods "
+             "are realised as bytecode in generated DEX files; MethodAnalysis' blocks (start, end, instruction offsets, childs, fathers, exception analysis, special_ins) of those, of "
+             "random longer methods (sparse switches, goto/32, several handlers, mis-aligned payloads) and of the methods of shipped DEX files are judged by TLC evaluating the same predicates "
+             "in MethodCFG_Trace.",
+        note=_CFG_NOTE, technique=_CFG_TECH, ref="4/C10-C12,C40")
+
+
+CLAIMED["C10"] = _cfg("C10", "the partition / leader / only-last-instruction-branches rules")
+CLAIMED["C11"] = _cfg("C11", "successor exactness (fall-through, taken branch, every switch case, none after return/throw) and predecessor = inverse")
+CLAIMED["C12"] = _cfg("C12", "exception coverage (a block reports a try range iff the range covers one of its instructions, with the handler blocks)")
+CLAIMED["C40"] = _cfg("C40", "agreement of block, child/father and payload-link offsets with the disassembler's instruction offsets and the exact payload-link rule")
+CLAIMED["C40"]["spec"] = ["MethodCFG", "MethodCFGMC", "MethodCFG_Trace", "Xref_Trace"]
+CLAIMED["C40"]["text"] += " Cross-reference offsets (method, field, string, class xrefs) are checked to be instruction offsets of the referencing method by the xref driver (Xref_Trace clause C40.xref-offsets)."
+
+_XREF_NOTE = ("Trusted: vf/dexgen.py + vf/asm.py (independent writer/assembler), TLC, the projection of Analysis objects. Known findings are recognised only when the observation "
+              "equals the specification evaluated under a named deviation (D1/D2 in Xref_Trace.tla).")
+_XREF_TECH = "TLA+ transition system of add()/create_xref() model-checked with TLC (all instruction choices x DEX splits x add orders); final states replayed as generated DEX files; Analysis output validated by a TLA+ trace spec"
+
+
+def _xref(what):
+    return dict(
+        spec=["Xref", "XrefMC", "Xref_Trace"],
+        text="Xref.tla models Analysis.add / create_xref as actions (Add per DEX, XrefMethod per method) over a universe with internal, undefined, external, array-class and primitive-array "
+             "targets and defines by set comprehension what the properties demand (" + what + "); TLC checks exactness and order independence (final state = canonical state for every split "
+             "and add order) and termination. Sampled (thorough: 1/6 of a larger instance) final states are realised as DEX files (one or two files, both add orders), analysed by the real Analysis "
+             "and compared with the TLC state; those records and random programs (<= 30 classes, overloads, all invoke kinds and /range forms, i/s get/put variants, jumbo strings, 1-4 DEX files, "
+             "every add order) are validated by Xref_Trace, which recomputes every expected set; the two oracles must agree record by record.",
+        note=_XREF_NOTE, technique=_XREF_TECH, ref="4/C13-C16")
+
+
+CLAIMED["C13"] = _xref("callee edges with offsets, the mirror-image caller lists, call-graph edges, one shared external stub per (class, name, descriptor)")
+CLAIMED["C14"] = _xref("reads/writes recorded on the FieldAnalysis returned for the accessed field, listed by the accessing method, one FieldAnalysis per defined field")
+CLAIMED["C15"] = _xref("const-string xrefs per string, new-instance and const-class lists per class and per method")
+CLAIMED["C16"] = _xref("the projection of classes, methods, fields, strings and all xrefs being identical to the single-DEX analysis for every split and add order")
+
 NOT_YET = "check not built yet in this session (planned in DESIGN.md section 4)"
 
 
